@@ -449,6 +449,44 @@ static void build_catalogue()
 	for(unsigned n : {171u, 172u, 1000u, UMAX})
 		R("Factorial " + std::to_string(n), [=] { return Factorial(n); });
 	A("Factorial 170 after 171 is refused elsewhere", [] { return Factorial(170) / Factorial(169); });
+	// the guard must not depend on what the memo table already holds: invalid requests after valid call histories
+	for(unsigned k : {0u, 5u, 100u, 160u, 165u, 170u})
+		for(unsigned n : {171u, 175u, 191u, 192u, 300u})
+			R("Factorial " + std::to_string(n) + " after Factorial(" + std::to_string(k) + ")", [=] { double a = Factorial(k); return a + Factorial(n); });
+	R("Factorial 180 after Binomial_Coefficient(168,3)", [] { double a = Binomial_Coefficient(168, 3); return a + Factorial(180); });
+	R("Factorial 171 after ascending sweep 0..170", [] { double a = 0; for(unsigned k = 0; k <= 170; k++) a += Factorial(k); return a + Factorial(171); });
+	A("Factorial 170 after descending requests", [] { return Factorial(170) + Factorial(3) + Factorial(169); });
+	// parameter guards crossed with the other arguments (a shortcut placed in front of the range check must not bypass it)
+	for(auto tx : std::vector<std::pair<unsigned, unsigned>> {{10, 3}, {10, 10}, {10, 11}, {0, 0}, {0, 5}, {170, 170}, {1, 0}})
+	{
+		for(double p : {0.0, 1.0, 0.3})
+		{
+			A("PMF_Binomial trials=" + std::to_string(tx.first) + " x=" + std::to_string(tx.second) + " p=" + hexf(p), [=] { return PMF_Binomial(tx.first, p, tx.second); });
+			A("CDF_Binomial trials=" + std::to_string(tx.first) + " x=" + std::to_string(tx.second) + " p=" + hexf(p), [=] { return CDF_Binomial(tx.first, p, tx.second); });
+		}
+		for(double p : {-1e-9, 1.0 + 1e-9, 2.0, -3.0})
+		{
+			R("PMF_Binomial trials=" + std::to_string(tx.first) + " x=" + std::to_string(tx.second) + " p=" + hexf(p), [=] { return PMF_Binomial(tx.first, p, tx.second); });
+			R("CDF_Binomial trials=" + std::to_string(tx.first) + " x=" + std::to_string(tx.second) + " p=" + hexf(p), [=] { return CDF_Binomial(tx.first, p, tx.second); });
+		}
+	}
+	for(double x : {-5.0, 0.0, 1e-300, 1e300})
+		for(double m : {0.0, -1.0, -1e-300})
+		{
+			R("PDF_Exponential x=" + hexf(x) + " mean=" + hexf(m), [=] { return PDF_Exponential(x, m); });
+			R("CDF_Exponential x=" + hexf(x) + " mean=" + hexf(m), [=] { return CDF_Exponential(x, m); });
+			R("PDF_Maxwell_Boltzmann x=" + hexf(x) + " a=" + hexf(m), [=] { return PDF_Maxwell_Boltzmann(x, m); });
+			R("CDF_Maxwell_Boltzmann x=" + hexf(x) + " a=" + hexf(m), [=] { return CDF_Maxwell_Boltzmann(x, m); });
+		}
+	for(unsigned k : {0u, 1u, 50u, 500u})
+		for(double m : {-1e-300, -1.0})
+		{
+			R("PMF_Poisson mean=" + hexf(m) + " k=" + std::to_string(k), [=] { return PMF_Poisson(m, k); });
+			R("CDF_Poisson mean=" + hexf(m) + " k=" + std::to_string(k), [=] { return CDF_Poisson(m, k); });
+		}
+	for(unsigned k : {0u, 1u, 200u})
+		for(double c : {-1e-9, 1.0 + 1e-9})
+			R("Inv_CDF_Poisson k=" + std::to_string(k) + " cdf=" + hexf(c), [=] { return Inv_CDF_Poisson(k, c); });
 	A("Binomial_Coefficient(5,2)", [] { return Binomial_Coefficient(5, 2); });
 	A("Binomial_Coefficient(3,5)", [] { return Binomial_Coefficient(3, 5); });
 	A("Binomial_Coefficient(0,0)", [] { return Binomial_Coefficient(0, 0); });
@@ -570,7 +608,7 @@ static void run_request(const Req& q)
 // Random requests around parametrised guards (the accepted side is decided by the request's own parameters).
 static void random_guard(Rng& rng, uint64_t)
 {
-	int family = rng.irange(0, 11);
+	int family = rng.irange(0, 12);
 	Req q;
 	switch(family)
 	{
@@ -671,7 +709,37 @@ static void random_guard(Rng& rng, uint64_t)
 		}
 		case 7: {
 			unsigned n = rng.irange(150, 200);
-			q = {"Factorial " + std::to_string(n), n <= 170, [=] { return Factorial(n); }};
+			int hist   = rng.irange(0, 3);
+			unsigned h1 = rng.irange(0, 170), h2 = rng.irange(150, 170);
+			q = {"Factorial " + std::to_string(n) + " after history " + std::to_string(hist) + ":" + std::to_string(h1) + "," + std::to_string(h2), n <= 170, [=] {
+					 double a = 0;
+					 if(hist >= 1)
+						 a += Factorial(h1);
+					 if(hist >= 2)
+						 a += Factorial(h2);
+					 if(hist >= 3)
+						 a += Binomial_Coefficient((int) h2, 2);
+					 return a + Factorial(n);
+				 }};
+			break;
+		}
+		case 12: {
+			int which	 = rng.irange(0, 5);
+			bool valid	 = rng.coin(0.4);
+			unsigned tr	 = rng.irange(0, 170), x = rng.coin(0.5) ? (unsigned) rng.irange(0, (int) tr) : tr + (unsigned) rng.irange(0, 4);
+			double p	 = valid ? (rng.coin(0.3) ? (rng.coin() ? 0.0 : 1.0) : rng.u01()) : (rng.coin() ? -rng.loguni(1e-12, 10) : 1.0 + rng.loguni(1e-12, 10));
+			double pos	 = valid ? rng.loguni(1e-6, 1e6) : (rng.coin(0.3) ? 0.0 : -rng.loguni(1e-300, 1e6));
+			double arg	 = rng.coin(0.2) ? 0.0 : rng.mag(1e-6, 1e6);
+			unsigned k	 = rng.irange(0, 300);
+			switch(which)
+			{
+				case 0: q = {"PMF_Binomial(" + std::to_string(tr) + "," + hexf(p) + "," + std::to_string(x) + ")", valid, [=] { return PMF_Binomial(tr, p, x); }}; break;
+				case 1: q = {"CDF_Binomial(" + std::to_string(tr) + "," + hexf(p) + "," + std::to_string(x) + ")", valid, [=] { return CDF_Binomial(tr, p, x); }}; break;
+				case 2: q = {"Exponential(" + hexf(arg) + "," + hexf(pos) + ")", valid, [=] { return PDF_Exponential(arg, pos) + CDF_Exponential(arg, pos); }}; break;
+				case 3: q = {"Maxwell_Boltzmann(" + hexf(arg) + "," + hexf(pos) + ")", valid, [=] { return PDF_Maxwell_Boltzmann(arg, pos) + CDF_Maxwell_Boltzmann(arg, pos); }}; break;
+				case 4: q = {"Poisson(" + hexf(valid ? pos : -std::fabs(pos) - 1e-300) + "," + std::to_string(k) + ")", valid, [=] { double m = valid ? std::min(pos, 1e3) : -std::fabs(pos) - 1e-300; return PMF_Poisson(m, k) + CDF_Poisson(m, k); }}; break;
+				default: q = {"Inv_CDF_Poisson(" + std::to_string(k) + "," + hexf(valid ? rng.uni(1e-6, 1 - 1e-6) : p) + ")", valid, [=, c = valid ? rng.uni(1e-6, 1 - 1e-6) : p] { return Inv_CDF_Poisson(k, c); }}; break;
+			}
 			break;
 		}
 		case 8: {
